@@ -3,8 +3,8 @@ import random
 from vlib import core, corr
 
 AREA = "C06"
-MODULES = ["TinsModel.Props.C06", "TinsModel.Props.Limits.C06"]   # + the constants / limits tied to the source (translator/gen_limits.py)
-AUDIT = ["Audit/C06.lean", "Audit/LimitsC06.lean"]
+MODULES = ["TinsModel.Props.C06", "TinsModel.Props.C06Sessions", "TinsModel.Props.Limits.C06"]   # + the constants / limits tied to the source (translator/gen_limits.py)
+AUDIT = ["Audit/C06.lean", "Audit/C06Sessions.lean", "Audit/LimitsC06.lean"]
 LEVEL = "proof"
 MANIFEST = dict(
     text="Lean 4 theorems over code-shaped executable models of DataTracker::process_payload/advance_sequence, "
